@@ -143,6 +143,28 @@ def run(ctx):
                 c.ob("R3", bool(sets), st, f"signals:{attr}", f"stop() sets every cancel flag held in {attr}" if sets else
                      f"stop() drops the cancel flags in '{attr}' without setting them: the waiting timer / delayed-send threads sleep out their delay "
                      f"and then deliver after stop() returned", st.node)
+            # ... and every flag a worker thread waits on is in one of those containers (a flag stop() cannot find is never set)
+            for f_ in r.funcs:
+                if f_.module.name != "sync_interpreter":
+                    continue
+                for a in own_nodes(f_.node):
+                    if not (isinstance(a, ast.Assign) and isinstance(a.targets[0], ast.Name) and isinstance(a.value, ast.Call) and norm(a.value.func) == "threading.Event"):
+                        continue
+                    flag = a.targets[0].id
+                    waited = any(isinstance(x, ast.Call) and isinstance(x.func, ast.Attribute) and x.func.attr == "wait" and norm(x.func.value) == flag
+                                 for g_ in [f_] + list(f_.nested.values()) for x in own_nodes(g_.node))
+                    if not waited:
+                        continue
+                    kept = [x for x in own_nodes(f_.node) if
+                            (isinstance(x, ast.Call) and isinstance(x.func, ast.Attribute) and x.func.attr == "add" and any(norm(z) == flag for z in x.args) and
+                             any(k in norm(x.func.value) for k in ("_after_events", "_pending_send_cancels"))) or
+                            (isinstance(x, ast.Assign) and isinstance(x.targets[0], ast.Subscript) and norm(x.value) == flag and
+                             any(k in norm(x.targets[0].value) for k in ("_after_events", "_pending_send_cancels")))]
+                    gk = cfg_of(f_.node)
+                    okk = bool(kept) and all(gk.always_after(i, [j for x in kept for j in cfg_node_of(f_, x)], [gk.exit], follow_exc=False) for i in cfg_node_of(f_, a))
+                    c.ob("R3", okk, f_, f"flag-registered:{flag}", f"the cancel flag '{flag}' a worker thread waits on is kept where stop() sets it" if okk else
+                         f"the cancel flag '{flag}' created in {f_.short} is waited on by a worker thread but is not stored in a container stop() signals: "
+                         f"the thread sleeps out its delay and delivers after stop() returned", a)
         # every actor is stopped, not merely forgotten
         stops = [x for x in own_nodes(st.node) if isinstance(x, ast.Call) and isinstance(x.func, ast.Attribute) and x.func.attr == "stop"
                  and dotted(x.func.value) in ("actor", "child")]
